@@ -438,6 +438,7 @@ func checkC16(w *World, r *Report) {
 	r.Explanation = "Decides the codec half of C16 for every source, name and timestamp: (R16.1) the ordered wire operations of SerializeCompiledTemplate and of deserializeBinaryFormat agree element-wise in kind, width, signedness, byte order and CompiledTemplate field, cover every field exactly once, agree on the version byte, and the string helpers form a pair under the same comparison; (R16.2) every narrowing of a length on the write side is guarded by a bound check that returns an error; (R16.3) every length prefix read from the input is compared with the remaining input before it sizes an allocation; (R16.4) every type registered with gob has no exported field, so LoadFromCompiled can only ever obtain its tree by parsing the stored source; (R16.5) the compiled loader derives file names by one expression shape. Not decided: rendered equality for every context (argued from R16.4 and determinism of Parse); the legacy gob container format. (R16.7) a function that writes a compiled file returns a nil error only behind the write on every path."
 	r.Explanation += " Rules added in later rounds: (R16.1c) compiled templates are written only by constructor/deserialiser; (R16.8) name → file is injective; (R16.9) a loaded tree is the parse of the stored source. (R16.10) Template.Compile builds from the receiver's own source. (R16.11) the reader does not judge the content of decoded strings."
 	r.Explanation += " Round 9: (R16.12) every constructor of a Template sets the fields its siblings derive from the tree."
+	r.Explanation += " Round 10: (R16.13) no size class selects a different writer or reader."
 	r.RuleText = "obligation = one pair of wire operations / one field / one narrowing / one length prefix / one gob registration / one path expression; non-trivial = pairs and dominance checks"
 	r.Trusted = []string{"encoding/binary fixed-size encoding is its own inverse for equal type and byte order", "io.ReadFull reads exactly len(buf) bytes"}
 
